@@ -26,11 +26,19 @@ structure Frame where
   todo : List (Word × Word)
   deriving DecidableEq, Repr, Inhabited
 
+/-- a running `Walk`, suspended inside a callback invocation: `pending` is the
+(path, node) that invocation was given — its children are enumerated only after
+the callback returns — and `frames` the enclosing `walk` activations -/
+structure Walker where
+  pending : Option (Word × Word)
+  frames : List Frame
+  deriving DecidableEq, Repr, Inhabited
+
 structure St where
   mem : Mem := []
   vals : List Word := []
   gos : List Word := []
-  wks : List (List Frame) := []
+  wks : List Walker := []
   outs : List (List Tok) := []
   deriving DecidableEq, Repr, Inhabited
 
@@ -399,13 +407,12 @@ def stepApi (st : St) : Api → Option St
     match p with
     | .map a => do
       let kvs ← kvsOf st.mem a
-      let x ← kvLookup (.s name) kvs
-      pure (st.pushVal aty x)
+      pure (st.pushVal aty ((kvLookup (.s name) kvs).getD .null))
     | .marked ms (.map a) => do
       let kvs ← kvsOf st.mem a
-      let x ← kvLookup (.s name) kvs
+      let x := (kvLookup (.s name) kvs).getD .null
       let l ← marksOf st.mem ms
-      let (m, ms') := alloc st.mem .lib (.markset l)
+      let (m, ms') := alloc st.mem .lib (.markset (msUnion (valMarks st.mem x) l))
       pure ((st.withMem m).pushVal aty (.marked ms' (unwrap x)))
     | _ => none
   -- Index: shares the element payload
@@ -589,23 +596,26 @@ def stepApi (st : St) : Api → Option St
     else
       let (m, arr) := alloc st.mem .caller (.array ys)
       pure ((st.withMem m).pushGo (.slice arr 0 ys.length ys.length))
-  -- Walk(val, cb): cb(nil, val); then one frame per node entered
+  -- Walk(val, cb): cb(nil, val) — the first callback invocation
   | .walkBegin v => do
     let (t, p) ← st.val v
-    let (m, kids) := walkChildren st.mem t p
-    pure { st with mem := m, wks := st.wks ++ [[⟨.null, kids⟩]], gos := st.gos ++ [.null], vals := st.vals ++ [.pair t p] }
-  -- the next callback invocation: path := append(path, step) — in place when the
-  -- parent's slice has spare capacity, i.e. siblings SHARE the buffer
+    pure { st with wks := st.wks ++ [⟨some (.null, .pair t p), []⟩], gos := st.gos ++ [.null], vals := st.vals ++ [.pair t p] }
+  -- the callback returns: the node's children are enumerated, and the next callback
+  -- invocation gets path := append(path, step) — in place when the parent's slice has
+  -- spare capacity, i.e. siblings SHARE the buffer
   | .walkNext w => do
-    let frames ← st.wks[w]?
+    let wk ← st.wks[w]?
+    let (m0, frames) := match wk.pending with
+      | some (path, .pair t p) =>
+        let (m, kids) := walkChildren st.mem t p
+        (m, (⟨path, kids⟩ : Frame) :: wk.frames)
+      | _ => (st.mem, wk.frames)
     match popFrames frames with
-    | [] => pure { st with wks := st.wks.set w [], outs := st.outs ++ [[.o "done", .c]] }
+    | [] => pure { st with mem := m0, wks := st.wks.set w ⟨none, []⟩, outs := st.outs ++ [[.o "done", .c]] }
     | ⟨_, []⟩ :: _ => none
     | ⟨path, (step, child) :: todo⟩ :: rest => do
-      let (m1, path') ← goAppend st.mem .scratch path step
-      let .pair ct cp ← some child | none
-      let (m2, kids) := walkChildren m1 ct cp
-      pure { st with mem := m2, wks := st.wks.set w (⟨path', kids⟩ :: ⟨path, todo⟩ :: rest),
+      let (m1, path') ← goAppend m0 .scratch path step
+      pure { st with mem := m1, wks := st.wks.set w ⟨some (path', child), ⟨path, todo⟩ :: rest⟩,
                      gos := st.gos ++ [path'], vals := st.vals ++ [child] }
 
 /-! ### caller actions -/
